@@ -33,7 +33,7 @@ REQUIRED = {
     "incidence/vertex_edge": 100, "incidence/vertex_edge_oriented": 100, "incidence/vertex_face": 60,
     "dual_lap/symmetric": 100, "dual_lap/row_sum": 100, "dual_lap/uniform_values": 50,
     "edge_lap/symmetric": 100, "edge_lap/row_sum": 100,
-    "vol_lap/symmetric": 20, "vol_lap/row_sum": 20, "tet_lap/degree_minus_adjacency": 20,
+    "vol_lap/symmetric": 20, "vol_lap/row_sum": 20, "vol_lap/stiffness": 8, "tet_lap/degree_minus_adjacency": 20,
     "vol_mass/vertex_sum": 20, "vol_mass/cells": 20, "vol_mass/option": 60,
 }
 CASE_TIMEOUT = {"quick": 120.0, "thorough": 600.0}
@@ -44,6 +44,10 @@ ASSUMPTIONS = [
     "graph Laplacian is accepted as well",
     "vertex mass = sum of the areas (volumes) of the incident faces (cells): entries sum to 3 x area (4 x volume); faces/edges/cells 1 x",
     "oriented vertex-edge incidence: -1 at the first (origin) and +1 at the second (arrival) end of the edge as stored in mesh.edges",
+    "volume_laplacian is compared with the P1 stiffness matrix only on meshes without obtuse dihedral angle (the code uses |cot|; what it "
+    "returns elsewhere is outside the statement and only noted)",
+    "laplacian_edges is compared with the edge-based (Crouzeix-Raviart) stiffness matrix up to one global positive factor; "
+    "laplacian_triangles(cotan=True) off-diagonal magnitudes with 1/|cot a + cot b| (sign left open, entries near the 1e-8 clamp not judged)",
     "vertex_to_face_operator is accepted in either orientation (|F|x|V| as returned, |V|x|F| as its docstring says)",
     "edge-indexed operators are compared in the edge numbering of mesh.edges (C01/C02 decide that numbering); values are recomputed",
     "config.sort_neighborhoods stays at its default",
@@ -75,7 +79,7 @@ def cases(seed, tier):
                     "vrows": vr[i % 4], "irows": ir[(i // 4) % 4]})
     for i in range(n_vol):
         out.append({"gen": "vol", "seed": rng.randrange(2 ** 31), "max_size": [2, 3][i % 2] if quick else [2, 3, 4][i % 3],
-                    "jitter": [0.0, 0.02][(i // 2) % 2], "history": hist[i % 2], "irows": ir[i % 3], "fmt": FORMATS[i % 5]})
+                    "jitter": [0.0, 0.0, 0.02][i % 3], "history": hist[i % 2], "irows": ir[i % 3], "fmt": FORMATS[i % 5]})
     for i in range(n_graph):
         out.append({"gen": "graph", "seed": rng.randrange(2 ** 31), "max_n": 30 if quick else 60, "history": hist[i % 2],
                     "reverse": i % 3 == 1})
@@ -810,6 +814,21 @@ def _vol_case(ctx, desc):
             bad = [(int(i), int(j)) for i, j in zip(*np.nonzero(off)) if R.edge_key(int(i), int(j)) not in want_edges]
             ctx.check(not bad, "vol_lap", "support", "couples_non_adjacent_vertices", "volume_laplacian couples two vertices that are not joined by an edge",
                       pair=bad[:1])
+            # "3D extension of the cotan laplacian": equals the P1 stiffness matrix.  mouette takes |cot| of the dihedral angles, which
+            # agrees with the cotangent formula exactly when no dihedral angle is obtuse: judged there, observed (note) elsewhere.
+            Kf = R.tet_fem_stiffness(V, C)
+            mc = R.tet_min_dihedral_cos(V, C)
+            es = want_edges
+            if mc >= -1e-10:
+                ctx.cls("dihedral:non_obtuse")
+                _close(ctx, "vol_lap", "stiffness", "differs_from_fem_stiffness",
+                       "volume_laplacian differs from the P1 finite-element stiffness matrix (n-D cotangent formula) on a mesh without obtuse dihedral angle",
+                       D, Kf, max(1e-9, relv), classify=lambda i, j: "diagonal" if i == j else ("edge" if R.edge_key(i, j) in es else "non_edge"))
+            else:
+                ctx.cls("dihedral:obtuse")
+                tolr = 1e-6 * R.row_norms(D, Kf)
+                if not R.worst_entry(D - Kf, tolr)[0]:
+                    ctx.note("volume_laplacian_differs_from_fem_stiffness_when_a_dihedral_angle_is_obtuse(abs_of_cotangent)")
     D = _dense(ctx, "tet_lap", "laplacian_tetrahedra", res.get("laplacian_tetrahedra"), (nC, nC))
     if D is not None:
         ref = R.cell_graph_laplacian(C)
